@@ -4,6 +4,7 @@ pub mod hooks;
 pub mod world;
 pub mod worldjson;
 pub mod appgen;
+pub mod batch;
 pub mod run;
 pub mod par;
 pub mod searchcase;
